@@ -544,13 +544,17 @@ fn container_case<G: CurveTag>(members: usize, long: usize, col: &mut Collector)
 
 pub fn run(tier: &str, seed: u64) -> i32 {
     let mut rep = Report::new("C08", tier, seed);
+    // C08 is about crashes: keep the case in progress on disk (see ./check: a run that dies is
+    // traced back to the case that killed it)
+    crate::runner::enable_breadcrumbs("C08");
     rep.level = "exploration";
     rep.rule = "grid (quick: lengths ≥31 only with honest fill/scalars; thorough: full product) (|L|,|R|) ∈ {0..9,31,32,33,63,64,65}² × gates {0,1,2,3,4,5,8} × fill {honest points, all identity, one identity, random} × scalars {honest, zero} × {verify, batch alone, batch beside a valid member}; plus proptest-generated structurally arbitrary proof objects, raw byte strings and mutated encodings (bit flips, truncation, extension, hostile length prefixes); non-trivial = the input decodes (reaches verification); distinct = grid cell / input hash".into();
     rep.assumptions = vec![
         "panics are observed with catch_unwind in a panic=unwind build of the library; aborts would kill the process (exit ≠ 0)".into(),
         "memory bound checked on decode: peak additional live heap ≤ 64·len + 64 KiB (counting global allocator, per thread)".into(),
     ];
-    let n = super::scale(tier, 6000, 200000);
+    // (testing aid: VERIF_C08_GRID_FIRST skips the generated inputs so that the grid runs at once)
+    let n = if std::env::var("VERIF_C08_GRID_FIRST").is_ok() { 0 } else { super::scale(tier, 6000, 200000) };
     for c in Curve::ALL {
         if !rep.outcome.found.is_empty() {
             break;
